@@ -15,10 +15,11 @@ import (
 type SExpr interface{}
 
 type (
-	SIdent  struct{ Name string }
-	SLit    struct{ Val *big.Int }
-	SStrLit struct{ Val string }
-	SSel    struct {
+	SIdent    struct{ Name string }
+	SLit      struct{ Val *big.Int }
+	SFloatLit struct{ Val float64 }
+	SStrLit   struct{ Val string }
+	SSel      struct {
 		X   SExpr
 		Sel string
 	}
@@ -457,6 +458,16 @@ func lex(s string) ([]tok, error) {
 			for j < len(s) && (s[j] >= '0' && s[j] <= '9' || s[j] >= 'a' && s[j] <= 'f' || s[j] >= 'A' && s[j] <= 'F' || s[j] == 'x' || s[j] == 'X' || s[j] == '_') {
 				j++
 			}
+			if j+1 < len(s) && s[j] == '.' && s[j+1] >= '0' && s[j+1] <= '9' {
+				// decimal floating-point literal (8.2)
+				j++
+				for j < len(s) && s[j] >= '0' && s[j] <= '9' {
+					j++
+				}
+				ts = append(ts, tok{"fnum", s[i:j]})
+				i = j
+				break
+			}
 			ts = append(ts, tok{"num", s[i:j]})
 			i = j
 		case c == '"':
@@ -630,6 +641,12 @@ func (p *parser) postfix() (SExpr, error) {
 			return nil, fmt.Errorf("bad number %q", t.s)
 		}
 		x = &SLit{n}
+	case "fnum":
+		f, err := strconv.ParseFloat(t.s, 64)
+		if err != nil {
+			return nil, fmt.Errorf("bad number %q", t.s)
+		}
+		x = &SFloatLit{f}
 	case "str":
 		x = &SStrLit{t.s}
 	case "id":
